@@ -201,14 +201,26 @@ func c17Random(c *core.Ctx) {
 			}
 		}()
 	}
+	rejected := 0
+	if c.Rng.IntN(3) == 0 {
+		// an invalid Do (nil function: documented panic), recovered by its caller, in between: no effect on the others
+		for i, n := 0, 1+c.Rng.IntN(3); i < n; i++ {
+			time.Sleep(time.Duration(c.Rng.IntN(300)) * time.Microsecond)
+			if core.Recover(func() { r.w.Do(nil) }) == nil {
+				c.Violate("invalid-accepted", "Do(nil) did not panic")
+			}
+			rejected++
+		}
+	}
 	if !core.AwaitDone(core.Go(wg.Wait), 30000) {
-		c.Violate("do-blocked", "holders did not finish")
+		c.Violate("do-blocked", "holders did not finish (%d rejected Do(nil) calls were made in between)", rejected)
 		c.SetDump(core.DumpAll())
 		return
 	}
 	r.check(c)
 	c.Op("do", len(r.holds))
 	c.Op("instance", len(r.instances))
+	c.Op("rejected", rejected)
 	if len(r.instances) > 1 {
 		c.Nontrivial()
 	}
